@@ -295,7 +295,7 @@ func init() {
 	o.Aux = []string{"json/create/textAndAlignment.json"}
 
 	// the library's own file copy (pkg/pdfcpu/io.go): same staging machinery, same-file short cut for aliases
-	single("copyfile", small, func(e *Env) error {
+	o = single("copyfile", small, func(e *Env) error {
 		out := e.Out
 		if out == "" {
 			out = e.In[0]
@@ -303,6 +303,7 @@ func init() {
 		_, err := pdfcpu.CopyFile(e.In[0], out, true)
 		return err
 	})
+	o.Rels = []string{RelInPlace, RelSame, RelNew, RelExisting, RelExisting0, RelExistingSameSize}
 
 	// ---- CLI layer with the input on stdin: the pkg/cli stream plumbing (spooled input, createStreamOutput, finalizer)
 	stdin := func(name string, inputs []string, run func(e *Env) error) {
